@@ -319,6 +319,7 @@ func (ex *Exec) runPath(h *Harness, prefix []int32) (reason string) {
 	ex.pending = nil
 	ex.snaps = nil
 	ex.syncMaps = nil
+	ex.fs = nil
 	ex.uuids = nil
 	ex.nuuid = 0
 	ex.onceDone = nil
@@ -326,7 +327,7 @@ func (ex *Exec) runPath(h *Harness, prefix []int32) (reason string) {
 		r := recover()
 		if r != nil {
 			switch r.(type) {
-			case pathAbort, goPanic, exitEvent:
+			case pathAbort, goPanic, exitEvent, crashEvent:
 			default:
 				panic(r)
 			}
@@ -344,6 +345,8 @@ func (ex *Exec) runPath(h *Harness, prefix []int32) (reason string) {
 			case goPanic:
 				reason = "panic"
 				ex.witness(Violation{Site: e.site, Kind: "panic", Msg: e.msg})
+			case crashEvent:
+				reason = "crash outside CrashDuring"
 			case exitEvent:
 				reason = "exit"
 				ex.witness(Violation{Site: e.site, Kind: "exit", Msg: "process exit (logrus.Fatal / os.Exit)"})
